@@ -16,7 +16,8 @@ Observations == ndJsonDeserialize(ObsFile)
 PF(applies, holds) == IF ~applies THEN "na" ELSE IF holds THEN "pass" ELSE "fail"
 
 Verdict(o) ==
-  LET t == Designates(o, 1, o.ref, FALSE)
+  LET \* "deadroot": the root is supplied through a location at which there is no document: nothing is designated
+      t == IF o.api = "WithBase:deadroot" THEN 0 ELSE Designates(o, 1, o.ref, FALSE)
       kindok == t # 0 /\ o.nodes[t].kind = o.kind
   IN [ case     |-> o.case,
        t        |-> t,
